@@ -487,10 +487,30 @@ class Body:
                 if ty == "bool":
                     return mk("const", "bool", bool(v))
                 return mk("const", ty, v)
+            if "promoted" in op:
+                pv = self.promoted_value(op["promoted"])
+                if pv is not None:
+                    return pv
             if "uneval" in op:
                 return mk("const", "item", op["uneval"])
             return mk("const", op["ty"], op["text"])
         return mk("opaque", op.get("text", "?"))
+
+    def promoted_value(self, idx):
+        """Value of promoted constant #idx (a tiny MIR body returning a reference to constants)."""
+        proms = self.fn["mir"].get("promoted") or []
+        if idx >= len(proms):
+            return None
+        cache = self.__dict__.setdefault("_prom_cache", {})
+        if idx not in cache:
+            fake = {"path": self.path + "::promoted[%d]" % idx, "kind": "Fn", "span": self.fn["span"], "mir": proms[idx]}
+            try:
+                pb = Body(fake, self.crate)
+                ds = pb.defs.get(0, [])
+                cache[idx] = norm(pb.expr_rv(ds[0][3])) if len(ds) == 1 and ds[0][2] == "rv" else None
+            except Exception:
+                cache[idx] = None
+        return cache[idx]
 
     def expr_place(self, pl, seen=None):
         l = pl["l"]
